@@ -124,6 +124,15 @@ func (m Merger) VisitList(nodes walk.Sources, s *openapi.ResourceSchema, kind wa
 
 	// Add
 	if yaml.IsMissingOrNull(nodes.Dest()) {
+		// A list-level directive element ("- $patch: delete|replace|merge") addresses
+		// the list in the destination; it must not be copied into the result when
+		// the destination has no such list (VisitMap does the same for maps).
+		if !yaml.IsMissingOrNull(nodes.Origin()) {
+			ps, _ := determineSmpDirective(nodes.Origin())
+			if ps == smpDelete {
+				return walk.ClearNode, nil
+			}
+		}
 		return nodes.Origin(), nil
 	}
 	// Clear
